@@ -29,6 +29,10 @@ CHECKS = {
    "TLA+ spec Writer.tla (bufio protocol, sticky error, final Flush) model-checked by TLC; every enumerated (write-size plan, fail offset, failure kind) executed on the real renderer; runs of real documents with the destination failing at every byte offset recorded and judged by the TLA+ acceptor TraceWriter.tla",
    "TLC explores every plan of up to 4 writes of 1,2,4,5,9 units (total <= 12, buffer 4 units) x every fail offset x short/zero failure and checks Prefix, ErrorSurfaces and termination (negative controls: dropped flush error, flush skipped when nothing is buffered); all ~6800 plans are executed on the real renderer with unit = 1024 bytes (exact comparison with the model is diagnostic) and at off-by-one offsets through four destination kinds; 60+ (600+) real documents including outputs of 20-30 KiB are converted with the destination failing at EVERY byte offset (stride + buffer-boundary neighbourhoods for the large ones), alternating Convert/Render, short/zero failures and plain, bufio(16/4096/65536) and custom BufWriter destinations; TLC judges each recorded run. Fault enumeration is exhaustive over offsets for the small documents.",
    "TLC, Json/IOUtils; the fault-injecting writer and the byte comparison with the fault-free output are harness code", "DESIGN.md 3.10, 5/C14"),
+ "C07": ("model_checking",
+   "TLA+ spec Once.tla (three sync.Once-guarded tables, one action per hook event plus the internal steps of sync.Once) model-checked by TLC; TLC-enumerated gate schedules replayed on real goroutines sharing one Markdown/Parser/Renderer under the Go race detector (gates spin in norace functions, adding no happens-before edge); per-goroutine event logs of scheduled and free-running runs validated by TLC against TraceOnce.tla; verdict = race report, panic or bytes differing from the same call run alone",
+   "TLC checks ReadsBuilt, InitOnce, OwnerExclusive, ResultSequential, NoWriteAfterDone and termination for 2 and 3 goroutines (negative controls: once replaced by a flag test, flag set before the build). Every transition of the gate-level graph of 7 (thorough: 12) classes - 2 or 3 goroutines calling Convert/Parse/Render in every mix, work split in 2 (3) chunks, entity table idle or built - is covered by a schedule, plus 150 (1500) random schedules per class: ~1700 scheduled runs quick, each on a fresh shared instance of a rotating configuration of the 256-lattice with documents touching every extension and every lazily built table; first-use races of the process-wide entity table run in 48 (400+) fresh processes; 96 (1536) free-running 4-goroutine runs under GOMAXPROCS 1/2/16 with injected yields. Exhaustive over the model's gate-level transitions; the race detector observes the executed paths.",
+   "TLC, Json; Go race detector (-race build of the harness, cgo); hooks ParseEnter/Init*/TablesRead/ParseReturn/RInit*/RTablesRead/EntInit*/Open/Continue/InlineTry/RenderNode (-tags verif)", "DESIGN.md 3.3, 5/C07"),
  "C01": ("exploration",
    "TLA+ generator Slots.tla (slot x payload x ending product) enumerated by TLC and every element, plus deep-nesting inputs, all short strings, repository examples and mutated documents, converted by the real library under all 256 configurations with a watchdog; abstract (configuration, api, outcome) events judged by the TLA+ acceptor TraceTotal.tla",
    "Every document of the TLC-enumerated product of 47 text-bearing slots x 200 (thorough: 1660) payloads of escaping/robustness atoms x 2 endings, ~280 (560) structured deep-nesting / unclosed-opener inputs up to 400 (12000) repetitions, every string of length <= 3 over a 22-symbol Markdown alphabet (incl. UTF-8 continuation and lead bytes), ~950 repository examples and 2500 (60000) mutated documents is run under all 256 built-in configurations, alternating Convert and Parse+Render: 8.7 million calls in the quick tier. Panics are recovered and attributed to the first goldmark frame; a call exceeding 20 s is re-run alone in a child process with 60 s. The space of all byte strings is only sampled beyond length 3, so the level is exploration; TLC contributes the structured enumeration and the acceptance of the call trace.",
